@@ -637,7 +637,8 @@ pub fn c18(args: &Args, rep: &mut Report) {
             rep.inc("loom_models");
         }
         if rep.samples.len() < 2 {
-            rep.sample(json!({"side": "rust", "level": lname, "threads": [["Hasher::new", "update_reader(3000)", "io::copy(6000)", "finalize", "count"], ["Hasher::new_keyed", "update_reader(5000)", "finalize_xof", "set_position(2^38-64)", "fill(200)", "clone", "update(9000)", "finalize"]], "preemption_bound": 2}));
+            let (a, b, e, cu) = sizes();
+            rep.sample(json!({"side": "rust", "level": lname, "threads": [["Hasher::new", format!("update_reader({})", a), format!("io::copy({})", b - a), "finalize", "count"], ["Hasher::new_keyed", format!("update_reader({})", e - 100), "finalize_xof", "set_position(2^38-64)", "fill(200)", "clone", format!("update({})", cu), "finalize"]], "preemption_bounds": "1, then 2 (3 thorough) if small at bound 1"}));
         }
     }
     LEVEL.store(usize::MAX, Ordering::SeqCst);
